@@ -36,7 +36,7 @@ func reg(p *propCfg) {
 }
 
 func init() {
-	reg(&propCfg{ID: "C10", QuickRuns: 12000, QuickSecs: 40, ThoroughRuns: 400000, ThoroughSecs: 780, Chunk: 50,
+	reg(&propCfg{ID: "C10", QuickRuns: 24000, QuickSecs: 40, ThoroughRuns: 400000, ThoroughSecs: 780, Chunk: 50,
 		Level:    "fault_enumeration",
 		RuleNote: "C10 strata: 'enum' = fixed 3-caller session with the server->client stream cut (EOF / reset) after an enumerated byte offset 0..600 (stride 7 so that any prefix of runs spreads over the whole session), schedules sampled; 'random' = 1..8 callers with a drawn fault (cut-eof, cut-reset, write-err, Unmount at a drawn step, unparseable / undersize / oversize frame, reply to unknown tag, peer close, stalled peer that later resets), replies withheld with drawn probability; 'control' = no fault, every call must succeed. Fault kind 'stall-then-cut': the peer stops reading so that the client's writer blocks on a bounded transport, then only the server-to-client stream ends.",
 		Real:     []string{"go9p client library (Clnt, Rpc/Rpcnb, recv/send goroutines, pools, Logger) — instrumented copy of /repo", "Go runtime, channels, mutexes"},
@@ -48,28 +48,28 @@ var srvReal = []string{"go9p server framework (Srv, Conn recv/send goroutines, r
 var srvStub = []string{"file-server implementation: ScriptFS (scripted SrvReqOps/ConnOps/SrvFidOps/FlushOp/AuthOps with invocation log)", "9P clients: raw peers with an independent codec", "transport: simulated net.Conn (segmentation, coalescing, back-pressure, cuts)"}
 
 func init() {
-	reg(&propCfg{ID: "C03", QuickRuns: 6000, QuickSecs: 40, ThoroughRuns: 300000, ThoroughSecs: 780, Chunk: 50,
+	reg(&propCfg{ID: "C03", QuickRuns: 12000, QuickSecs: 40, ThoroughRuns: 300000, ThoroughSecs: 780, Chunk: 50,
 		RuleNote:   "C03: 1..3 connections, per connection 1..16 (thorough 1..64) pipelined requests of 9 types on 1..64 tags that are reused as soon as a reply arrives; per request the script answers now / parked until released / after returning / from another goroutine / with an Rerror; stratum 'double-answer' also answers twice with different content. Held requests are released one per phase in scheduler-chosen order. Every 16th run is the stratum 'tversion-mid-session': 1..16 Tstat requests (a drawn share parked in the implementation) with a Tversion behind them in the same or the next segment; once the server is idle again the same tags are used for new requests, each of which must get exactly one Rstat.",
 		Real:       srvReal, Stub: srvStub,
 		ProbeNames: []string{"multi-message-segment", "tag-reused-after-reply", "3+-held-simultaneously", "release-order-differs-from-arrival", "completion-order-differs-from-arrival", "8+-requests-held-on-a-connection"}})
 }
 
 func init() {
-	reg(&propCfg{ID: "C07", QuickRuns: 6000, QuickSecs: 40, ThoroughRuns: 300000, ThoroughSecs: 780, Chunk: 50,
+	reg(&propCfg{ID: "C07", QuickRuns: 12000, QuickSecs: 40, ThoroughRuns: 300000, ThoroughSecs: 780, Chunk: 50,
 		RuleNote:   "C07: per connection 1..3 (thorough 1..6) flush episodes: a target request of any of 9 types (answered now / parked / after returning / from another goroutine / never) optionally queued behind a same-tag request, 1..3 Tflush of it placed in the same transport write, unsynchronised, once the target is parked in the implementation, or after its reply arrived; flush of a flush; the old tag is reused the moment Rflush (or the reply) arrives; with and without FlushOp (ignore / req.Flush() / answer the target). After the run, probes check that cancelled requests left no fid state.",
 		Real:       srvReal, Stub: srvStub,
 		ProbeNames: []string{"request-cancelled-by-flush", "cancelled-before-implementation", "cancelled-after-implementation-started", "f4-probe-unknown", "f4-probe-valid", "multi-message-segment"}})
 }
 
 func init() {
-	reg(&propCfg{ID: "C08", QuickRuns: 6000, QuickSecs: 40, ThoroughRuns: 300000, ThoroughSecs: 780, Chunk: 50,
+	reg(&propCfg{ID: "C08", QuickRuns: 12000, QuickSecs: 40, ThoroughRuns: 300000, ThoroughSecs: 780, Chunk: 50,
 		RuleNote:   "C08: 1..3 connections with 2..12 requests each, a drawn subset of up to 3 (thorough 6) parked inside the implementation (in the callback or answering later from another goroutine); at every quiescence (before any release, after each release in scheduler-chosen order) every other written request must have its reply, and Tstat requests issued while the subset is parked must be answered; stratum 'shared-tag-groups' adds groups of 2..8 requests issued under one tag without waiting, checked for one-at-a-time execution and reply order. Every 10th run is the stratum 'auth-fid-blocked': server with AuthOps, one Tread or Twrite on an authentication fid parked inside AuthRead / AuthWrite; a Twrite and a Tread on the same afid, a Tattach naming it, Tstat / Twalk on other fids and requests on a second connection must all be answered meanwhile.",
 		Real:       srvReal, Stub: srvStub,
 		ProbeNames: []string{"quiescence-with-requests-parked", "late-request-answered-while-others-parked", "shared-tag-group-of-3+", "group-member-parked-with-successors", "3+-held-simultaneously", "release-order-differs-from-arrival"}})
 }
 
 func init() {
-	reg(&propCfg{ID: "C11", QuickRuns: 6000, QuickSecs: 40, ThoroughRuns: 300000, ThoroughSecs: 780, Chunk: 50,
+	reg(&propCfg{ID: "C11", QuickRuns: 12000, QuickSecs: 40, ThoroughRuns: 300000, ThoroughSecs: 780, Chunk: 50,
 		RuleNote:   "C11: a victim and a bystander connection run C03-style pipelined histories (fids attached, walked, opened, created, clunked, removed; up to 4 victim requests parked in the implementation); the victim's client end is closed, reset, or closed in the middle of a frame at a drawn step / at the first quiescence with requests parked / when idle; parked requests are released afterwards in scheduler-chosen order; then the bystander and a fresh connection are probed.",
 		Real:       srvReal, Stub: srvStub,
 		ProbeNames: []string{"cut-with-requests-parked", "3+-held-simultaneously", "release-order-differs-from-arrival"}})
@@ -102,9 +102,9 @@ func init() {
 
 func init() {
 	note := "C04/C05 share one harness: histories of 10..40 (thorough ..200) requests over fid numbers {0..5,7,NOFID,NOFID-1} on 1..2 connections using the same numbers, all message types incl. walks that are full, partial, failing, zero-name, in place or onto a used newfid, attach with/without afid, open modes incl. OTRUNC/ORCLOSE, create perms incl. DMDIR and the special-file bits, read/write counts at 0, 1, msize-25, msize-24, msize-23, 2^31, 2^32-24, 2^32-11, 2^32-1, both dialects, with and without AuthOps; the generator runs the reference model forward to keep histories in interesting states. Requests are issued one at a time (the next the moment the previous reply is readable, while the previous worker may still be running); every reply, every implementation call (operation, fid object identity, user, arguments) and every FidDestroy is compared with the reference fid-table model, then every fid number is probed."
-	reg(&propCfg{ID: "C04", QuickRuns: 4000, QuickSecs: 40, ThoroughRuns: 200000, ThoroughSecs: 780, Chunk: 50, RuleNote: note + " C04 evaluates rules a*: validity, refusal texts, forwarding of requests naming invalid fids, user binding, FidDestroy exactly once and not after the invalidating reply, final probes. 30 % of the forwarded Twrites are parked in the implementation while a filler request arrives (arguments and payload must stay intact). 60 % of C04 histories end with an epilogue: on some connections a parked request is cancelled by Tflush (FlushOp), then the client leaves, and every fid object ever shown to the implementation must have been reported destroyed exactly once. Every 10th C04 run is the stratum 'ufs-fid-table': 10..40 (thorough ..150) requests of all kinds over six fid numbers against the real Ufs (including hard-link creates that name a source fid), validity model driven by the replies, Tstat probes at the end. Every 5th run of C04 is the stratum 'concurrent-batch': after a prologue, 2..8 (thorough ..30) rounds each send 2..4 requests (Tattach, Twalk to a new or the same fid with 0/1 names, Tclunk, Tremove, Tstat) that mostly meet on one of four fid numbers, in one segment or back to back, the implementation holding a drawn share of them until released in drawn order; the replies, the implementation calls per request and the validity of every number afterwards (probed with Tstat) must be explained by some order of the batch applied to the fid-table model (all orders tried; a request overlapping an invalidation or an unanswered bind of its fid may go either way), and at the end every fid object shown to the implementation is reported destroyed exactly once unless still valid.",
+	reg(&propCfg{ID: "C04", QuickRuns: 10000, QuickSecs: 40, ThoroughRuns: 200000, ThoroughSecs: 780, Chunk: 50, RuleNote: note + " C04 evaluates rules a*: validity, refusal texts, forwarding of requests naming invalid fids, user binding, FidDestroy exactly once and not after the invalidating reply, final probes. 30 % of the forwarded Twrites are parked in the implementation while a filler request arrives (arguments and payload must stay intact). 60 % of C04 histories end with an epilogue: on some connections a parked request is cancelled by Tflush (FlushOp), then the client leaves, and every fid object ever shown to the implementation must have been reported destroyed exactly once. Every 10th C04 run is the stratum 'ufs-fid-table': 10..40 (thorough ..150) requests of all kinds over six fid numbers against the real Ufs (including hard-link creates that name a source fid), validity model driven by the replies, Tstat probes at the end. Every 5th run of C04 is the stratum 'concurrent-batch': after a prologue, 2..8 (thorough ..30) rounds each send 2..4 requests (Tattach, Twalk to a new or the same fid with 0/1 names, Tclunk, Tremove, Tstat) that mostly meet on one of four fid numbers, in one segment or back to back, the implementation holding a drawn share of them until released in drawn order; the replies, the implementation calls per request and the validity of every number afterwards (probed with Tstat) must be explained by some order of the batch applied to the fid-table model (all orders tried; a request overlapping an invalidation or an unanswered bind of its fid may go either way), and at the end every fid object shown to the implementation is reported destroyed exactly once unless still valid.",
 		Real: srvReal, Stub: srvStub, ProbeNames: []string{"refused-before-forward", "fid-invalidated", "forwarded-walk", "forwarded-attach"}})
-	reg(&propCfg{ID: "C05", QuickRuns: 4000, QuickSecs: 40, ThoroughRuns: 200000, ThoroughSecs: 780, Chunk: 50, RuleNote: note + " C05 evaluates rules b*: refusal before forwarding for every protocol rule, forwarded exactly once with the fid object, user and arguments named, reply equal to what the implementation produced, authentication gate.",
+	reg(&propCfg{ID: "C05", QuickRuns: 8000, QuickSecs: 40, ThoroughRuns: 200000, ThoroughSecs: 780, Chunk: 50, RuleNote: note + " C05 evaluates rules b*: refusal before forwarding for every protocol rule, forwarded exactly once with the fid object, user and arguments named, reply equal to what the implementation produced, authentication gate.",
 		Real: srvReal, Stub: srvStub, ProbeNames: []string{"refused-before-forward", "forwarded-read", "forwarded-write", "forwarded-create", "forwarded-open"}})
 }
 
@@ -112,42 +112,42 @@ var ufsReal = []string{"go9p Ufs (Unix file server) on a per-run scratch tree wi
 var ufsStub = []string{"transport: simulated net.Conn (segmentation by policy)", "raw 9P peers with an independent codec (where the workload needs exact requests)"}
 
 func init() {
-	reg(&propCfg{ID: "C14", QuickRuns: 1500, QuickSecs: 40, ThoroughRuns: 60000, ThoroughSecs: 780, Chunk: 20,
+	reg(&propCfg{ID: "C14", QuickRuns: 3000, QuickSecs: 40, ThoroughRuns: 60000, ThoroughSecs: 780, Chunk: 20,
 		RuleNote:   "C14: 1..4 (thorough ..6) caller goroutines, each with 1..3 files of length 0, 1, iounit-1, iounit, iounit+1, 2*iounit+-1, 3*iounit+7 or random up to 5 iounits (seeded content), iounit 128..65512 further limited by the server's msize, both dialects; 2..8 operations per file drawn from Clnt.Read/Write, File.Read/Write/ReadAt/WriteAt/Readn/Written and a full sequential read, offsets at 0, EOF, EOF+1, beyond, iounit multiples -1, counts 0, 1, iounit-1..iounit+1, 2 and 3 iounits; every result is compared with a byte-slice model and, after every write, the model with os.ReadFile. Every 5th run injects OS errors into Ufs (10-80 per mille, at most 5): a call running while an error fired may fail, but what it reports as written must be in the file and nothing else may change.",
 		Real:       ufsReal, Stub: ufsStub,
 		ProbeNames: []string{"read-at-or-past-eof", "read-ending-exactly-at-eof", "write-past-eof", "read-spanning-3+-messages", "readn-spanning-messages", "written-spanning-messages"}})
 }
 
 func init() {
-	reg(&propCfg{ID: "C15", QuickRuns: 2500, QuickSecs: 40, ThoroughRuns: 100000, ThoroughSecs: 780, Chunk: 25,
+	reg(&propCfg{ID: "C15", QuickRuns: 8000, QuickSecs: 40, ThoroughRuns: 100000, ThoroughSecs: 780, Chunk: 25,
 		RuleNote:   "C15: directories of 0, 1, 2, 3, 7, 50 (thorough also 1000 and 3000) entries with name lengths 1..255 (so entry sizes vary), files and subdirectories, msize 256..64 KiB, both dialects. Five strata by run index: a fixed count enumerated from the largest entry size up to about three entries; random counts per read; a listing abandoned after 1..3 replies and restarted at offset 0; the client's Readdir(0) and Readdir(n); a count smaller than the first entry. Every Rread payload is split into whole records by the independent stat decoder and the concatenated listing is compared with os.ReadDir. The too-small stratum also lists up to a drawn entry k, offers less than entry k needs at that offset (Rerror expected, not an empty reply) and then reads entry k with exactly its size.",
 		Real:       ufsReal, Stub: ufsStub,
 		ProbeNames: []string{"fixed-count-listing", "restart-at-zero-mid-listing", "client-readdir", "count-too-small"}})
 }
 
 func init() {
-	reg(&propCfg{ID: "C16", QuickRuns: 1500, QuickSecs: 40, ThoroughRuns: 60000, ThoroughSecs: 780, Chunk: 20,
+	reg(&propCfg{ID: "C16", QuickRuns: 2500, QuickSecs: 40, ThoroughRuns: 60000, ThoroughSecs: 780, Chunk: 20,
 		RuleNote:   "C16: random trees of 5..40 entries nested up to 3, 8 or 40 levels (names with spaces, non-ASCII bytes, dots, 255-byte names; files, directories, symlinks incl. dangling ones, hard links). Stratum 'raw-walks': 10..40 walks per run from an existing start point by a name list of which a prefix exists (suffix 'missing', prefix 'missing-first', up to 16 elements), to a new fid or in place; number of qids, error iff the first element is missing, qid type/path against os.Lstat, then Tstat of source fid and new fid decide where they point; stat fields (name, permission bits, DMDIR/DMSYMLINK, length, mtime, qid, symlink target) against os.Lstat; one qid path never names two different files. Stratum 'client-paths': FStat of every object through the client (deep paths split into several Twalks). followed by 2..4 goroutines sharing that client and resolving drawn paths concurrently, every answer compared with os.Lstat.",
 		Real:       ufsReal, Stub: ufsStub,
 		ProbeNames: []string{"partial-walk", "partial-walk-in-place", "walk-first-missing", "client-walk-split-into-several-twalks"}})
 }
 
 func init() {
-	reg(&propCfg{ID: "C17", QuickRuns: 1500, QuickSecs: 40, ThoroughRuns: 50000, ThoroughSecs: 780, Chunk: 20,
+	reg(&propCfg{ID: "C17", QuickRuns: 3000, QuickSecs: 40, ThoroughRuns: 50000, ThoroughSecs: 780, Chunk: 20,
 		RuleNote:   "C17: a random tree (3..25 entries: files, directories, symlinks, hard links) is created twice; 8..30 (thorough ..80) mutations drawn against the current state — create of a file with each open mode +-OTRUNC followed by a write through the new fid, of a directory, symlink (also dangling) and hard link, write to an existing file, remove of files and of empty and non-empty directories, wstat rename to free and occupied names, truncate to 0..beyond size, chmod, mtime — are applied through raw 9P requests to tree A and with the os package to twin B; after every step the trees are compared recursively (names, kinds, permission bits, contents, link targets, link counts), error replies must leave A unchanged (create, remove) and carry the errno of the POSIX failure in 9P2000.u, and Tstat on the fid after create/rename must name the new object. Create over an existing name may either fail or behave like a non-exclusive open. Every 4th run (stratum os-error) lets one os / syscall call of the mutating request fail with a drawn errno (EIO, ENOSPC, EACCES, EMFILE, ENOENT, EINTR, EROFS, ENOMEM) instead of being performed: the reply must carry that errno, a failed create/remove must leave the tree unchanged, and the twin is re-synchronised afterwards. With probability 0.4 a Twstat step (rename, truncate, chmod, chown, mtime) is sent on a fid that was first opened with a drawn mode (OREAD/OWRITE/ORDWR/OEXEC). Every 4th run is the stratum 'session': 1..4 long-lived fids, each modelled as the path it designates plus (once open) an open file of the twin; 16..60 requests (Tstat, Topen with every mode, Twrite, Tread, Twstat length / mode / name, Tremove, Tcreate through a directory fid, Tclunk) go through a drawn live fid, the twin gets the POSIX operation on that path or open file, replies, read data, stat fields and the two trees are compared after every step; fids that a rename or remove would leave dangling are clunked first. Half of all Twrites are followed at once by 1..3 further requests.",
 		Real:       ufsReal, Stub: ufsStub,
 		ProbeNames: []string{"create-error", "remove-error", "rename", "truncate", "chmod", "set-mtime", "symlink-create", "hardlink-create"}})
 }
 
 func init() {
-	reg(&propCfg{ID: "C18", QuickRuns: 1500, QuickSecs: 40, ThoroughRuns: 60000, ThoroughSecs: 780, Chunk: 20,
+	reg(&propCfg{ID: "C18", QuickRuns: 3000, QuickSecs: 40, ThoroughRuns: 60000, ThoroughSecs: 780, Chunk: 20,
 		RuleNote:   "C18: layout outer/{canary.txt, canarydir/inside.txt, root/...} with a further canary above; 6..20 attacking connections per run, each with an attach name, 0..4 walk elements, a create name and a rename target drawn from a grammar over '..', '.', '', '/', absolute paths, '../' chains, elements containing '/', and mixtures with real names, started at the root or at a random depth, followed by stat, open, read / directory read, write, create, rename and remove through whatever fid resulted. Canaries and everything else outside the root (mode, mtime, content, listing) must be unchanged, no qid returned may be that of an object outside the root (inode comparison), no data read may be a canary's, '..' at the root must yield the root's qid. Hostile creates use every kind (file, directory and, in 9P2000.u, symbolic link, hard link, named pipe, device, socket); after an Rcreate the fid is examined with Tstat and a walk to the canary's name.",
 		Real:       ufsReal, Stub: ufsStub,
 		ProbeNames: []string{"dotdot-walk", "attach-refused"}})
 }
 
 func init() {
-	reg(&propCfg{ID: "C20", QuickRuns: 6000, QuickSecs: 40, ThoroughRuns: 300000, ThoroughSecs: 780, Chunk: 50,
+	reg(&propCfg{ID: "C20", QuickRuns: 12000, QuickSecs: 40, ThoroughRuns: 300000, ThoroughSecs: 780, Chunk: 50,
 		RuleNote:   "C20: capacities 1, 2, 3, 5, 16, 17, 64; histories of 0, 1, N-1, N, N+1, 2N+1, 3N+2 and 10N entries (at most 400) from 3 owners and types {1,2,4}, in 1..4 batches. Stratum 'sequential': one producer; after each batch the system runs to quiescence and Filter (all, and drawn owner/type filters) is compared exactly with a reference ring of the last N entries. Stratum 'concurrent': 1..4 producers and 1..2 filterers as simulated goroutines; every result must contain only logged matching entries, no duplicates, at most N; per-producer order, real-time order and the order inside all results must be acyclic, no matching entry forced between two returned ones may be missing; after producers finish the exact (1 producer) or size (several) check applies; no Log/Filter call may be blocked at quiescence.",
 		Real:       []string{"go9p Logger (NewLogger, Log, Filter, doLog goroutine) — instrumented copy of /repo", "Go runtime, channels"},
 		Stub:       []string{"callers: simulated producer and filterer goroutines"},
@@ -155,7 +155,7 @@ func init() {
 }
 
 func init() {
-	reg(&propCfg{ID: "C06", QuickRuns: 1800, QuickSecs: 45, ThoroughRuns: 300000, ThoroughSecs: 780, Chunk: 40,
+	reg(&propCfg{ID: "C06", QuickRuns: 2400, QuickSecs: 45, ThoroughRuns: 300000, ThoroughSecs: 780, Chunk: 40,
 		RuleNote:   "C06: six strata (scripted implementation | Ufs on a scratch tree) x (grammar | byte mutation | raw bytes). A hostile raw peer optionally negotiates (msize 24..70000) and binds fids in several states (attached, walked, opened directory and file), then sends 5..30 frames: every message type (T and R codes) with boundary and random field values (NOFID, NOTAG, 0, max, 2^31, 2^63, 2^64-1), names '', '.', '..', 'a/b', '/', 255, 4000 and 65000 bytes, walks of 16, 17 and 300 elements, counts around msize and 2^32, directory reads at arbitrary offsets, second Tversion mid-session; or valid requests with flipped / inserted / deleted / truncated bytes and edited size fields; or random bytes. A bystander connection issues Tstat throughout and a fresh connection is opened afterwards. Every other Ufs run additionally injects OS errors (20-200 per mille, at most 12) into the os / syscall calls of Ufs. Oracle: no goroutine of the simulated process panics; bystander and later connection are served; allocation stays bounded.",
 		Real:       append(append([]string{}, srvReal...), "go9p Ufs on a scratch tree (ufs strata)"),
 		Stub:       srvStub,
@@ -163,7 +163,7 @@ func init() {
 }
 
 func init() {
-	reg(&propCfg{ID: "C19", Race: true, QuickRuns: 1200, QuickSecs: 50, ThoroughRuns: 60000, ThoroughSecs: 900, Chunk: 30,
+	reg(&propCfg{ID: "C19", Race: true, QuickRuns: 2400, QuickSecs: 50, ThoroughRuns: 60000, ThoroughSecs: 900, Chunk: 30,
 		RuleNote:   "C19 runs in the race build (only go9p and the standard library are instrumented; scheduler and harness are compiled with -race=false and park/release inside RaceDisable regions, transport reads happen-after earlier writes like sockets do). Strata: 'script/pipelined' (C03 workload: 1..3 connections, up to 16 pipelined requests each on its own fid, answers from other goroutines), 'script/flushes' (C07 workload incl. Tversion at session start), 'ufs/shared-client' (2..8 goroutines sharing one client against Ufs, each on its own file, all walking from the shared root fid, reading a shared directory), 'script/connection-churn' (connections opened and dropped once their requests are answered while two others stay busy). Only race reports and crashes are judged. Added strata: 'client/shared-client' (2..8 goroutines sharing the library client against the scripted peer: Read/Write/Stat/Walk/Clunk, pipelined Tag reads, File.ReadAt, replies withheld and released in drawn order, client logging off / fcalls / packets with a goroutine reading the log), 'logger' (2..4 producers and 1..3 filterers on one Logger); the Ufs stratum uses 1..3 connections and includes '..' walks and renames.",
 		Real:       append(append(append([]string{}, srvReal...), "go9p client library", "go9p Ufs on a scratch tree"), "Go race detector"),
 		Stub:       srvStub,
